@@ -2,7 +2,8 @@
    Model: Wallet/Builder.v (TransactionBuilder::build_transaction, the seven passes in source
    order, FeeRate::fee as a parameter [fee : N -> N]).  Specification: Wallet/BuilderSpec.v.
    Only statements here, closed by [exact]. *)
-From OrdV Require Import Base.Prelude Generated Wallet.Builder Wallet.BuilderSpec Proofs.Builder_proofs.
+From OrdV Require Import Base.Prelude Generated Wallet.Builder Wallet.BuilderSpec Proofs.Builder_proofs
+  Proofs.Builder_nopanic.
 
 (* (a) Coin selection, for every wallet, pool, target value and preference: the outpoint returned
    by select_cardinal_utxo comes from the pool, is not runic, not locked and carries no
@@ -29,5 +30,59 @@ Theorem C20_build_ok_implies_spec : forall fee w tx,
   build_transaction fee w = Ok tx -> SendSpec fee w tx.
 Proof. exact build_ok_implies_spec. Qed.
 
+(* (c) build_transaction never panics: for every fee function and wallet forming a well-formed
+   call (WalletOK, Wallet/BuilderSpec.v: amounts is a map of positive values totalling at most
+   21e14 sat, inscription offsets at most 21e14, both change scripts are addresses, a burn to
+   OP_RETURN names an amount >= 1 sat, the requested amount fits u64, the fee function is
+   monotone and sub-additive up to one sat of rounding), no assert!/unwrap/expect/index/Amount
+   arithmetic site of the seven passes is reached; the result is Ok or one of the documented
+   errors.  This is a statement about the code as repaired by the four `fix:` commits of
+   /repo listed in known_findings.txt; the pinned code violates it (corpus/C20). *)
+Theorem C20_never_panics : forall fee w,
+  WalletOK fee w -> forall t, build_transaction fee w <> Panic t.
+Proof. exact build_transaction_never_panics. Qed.
+
+(* The hypotheses on the fee function hold for every dyadic rate k/2^j, the rates for which
+   FeeRate::fee is modelled exactly. *)
+Theorem C20_dyadic_fee_laws : forall k j,
+  (forall a b, a <= b -> fee_dyadic k j a <= fee_dyadic k j b) /\
+  (forall a b, fee_dyadic k j (a + b) <= fee_dyadic k j a + fee_dyadic k j b + 1) /\
+  (forall a, fee_dyadic k j a <= U64_MAX).
+Proof. exact fee_dyadic_laws. Qed.
+
+(* Non-vacuity: a burn (ExactPostage(1 sat) to a 5-byte OP_RETURN, 1 sat/vB) of an inscription
+   on a 330-sat output, the call that panicked in the pinned code, is a well-formed call and
+   now yields a transaction; a send that needs padding, a cardinal input and change as well. *)
+Definition burn_330 : Wallet :=
+  mkWallet [(10, 330)] [(10, 0)] [] [] 10 0 29 0 8 (TExact 1).
+Definition send_padded : Wallet :=
+  mkWallet [(3, 5000); (7, 40000); (10, 10000); (11, 600)] [(10, 100); (11, 0)] [7] [] 10 100 16 0 8 TPostage.
+
+Example C20_nonvacuous :
+  build_transaction (fee_dyadic 1 0) burn_330 = Ok ([10], [(29, 248)]) /\
+  build_transaction (fee_dyadic 9 2) send_padded
+    = Ok ([3; 10], [(8, 5100); (16, 9423)]) /\
+  SendSpec (fee_dyadic 9 2) send_padded ([3; 10], [(8, 5100); (16, 9423)]).
+Proof.
+  split; [vm_compute; reflexivity|]. split; [vm_compute; reflexivity|].
+  apply C20_build_ok_implies_spec. vm_compute. reflexivity.
+Qed.
+
+Lemma burn_330_ok : WalletOK (fee_dyadic 1 0) burn_330.
+Proof.
+  destruct (fee_dyadic_laws 1 0) as [H1 [H2 H3]].
+  constructor; try assumption; cbn.
+  - repeat constructor. intros [].
+  - intros id v [H|[]]. inversion H. reflexivity.
+  - vm_compute. discriminate.
+  - intros o off [H|[]]. inversion H. vm_compute. discriminate.
+  - reflexivity.
+  - reflexivity.
+  - intros _. exists 1. split; [reflexivity|]. reflexivity.
+  - intros a H. inversion H. vm_compute. discriminate.
+Qed.
+
 Print Assumptions C20_select_cardinal_never_noncardinal.
 Print Assumptions C20_build_ok_implies_spec.
+Print Assumptions C20_never_panics.
+Print Assumptions C20_dyadic_fee_laws.
